@@ -79,13 +79,19 @@ pub struct OutRec {
     /// creating tx (index into `txs`), None = genesis
     pub creator: Option<usize>,
     pub lock_variant: u8,
+    /// dep-group cell: the out-points its data lists (indices into `outs`); empty for ordinary cells
+    pub members: Vec<usize>,
 }
 #[derive(Clone, Debug)]
 pub struct TxRec {
     pub name: String,
     pub view: TransactionView,
     pub ins: Vec<usize>,
+    /// every out-point the transaction depends on without spending it: direct cell deps, dep-group cells and the
+    /// members those groups list (what ResolvedTransaction::related_dep_out_points names)
     pub deps: Vec<usize>,
+    /// the dep-group cells among `deps`
+    pub gdeps: Vec<usize>,
     pub hdeps: Vec<usize>,
     pub outs: Vec<usize>,
     pub fee: u64,
@@ -171,7 +177,7 @@ impl World {
         let c = consensus(&params_of(scn));
         let node = Node::start(&NodeCfg { assembler: scn.mine, tx_pool: Some(pool_config(scn)), ..NodeCfg::temp(&c) });
         let outs = (0..scn.genesis_cells)
-            .map(|i| OutRec { op: genesis_cell(&c, i), cap: CELL_CAP, name: ("g".to_string(), i as u32 + 1), creator: None, lock_variant: 0 })
+            .map(|i| OutRec { op: genesis_cell(&c, i), cap: CELL_CAP, name: ("g".to_string(), i as u32 + 1), creator: None, lock_variant: 0, members: vec![] })
             .collect();
         let mut w = World {
             scn: scn.clone(), c, node, prefix: prefix.to_string(), outs, txs: vec![], tx_by_hash: HashMap::new(), tx_by_short: HashMap::new(),
@@ -199,6 +205,17 @@ impl World {
     /// Create (not submit) a transaction spending `ins`, with cell deps `deps`, header deps on blocks `hdeps`,
     /// `n_out` outputs and fee `fee` shannons. Returns its index, or None when the capacities do not allow it.
     pub fn new_tx(&mut self, ins: &[usize], deps: &[usize], hdeps: &[usize], n_out: usize, fee: u64, rng: &mut Rng) -> Option<usize> {
+        self.new_tx_full(ins, deps, &[], &[], hdeps, n_out, fee, rng)
+    }
+
+    /// A transaction whose first output is a dep-group cell listing `members` (its data is their OutPointVec).
+    pub fn new_group_tx(&mut self, ins: &[usize], members: &[usize], fee: u64, rng: &mut Rng) -> Option<usize> {
+        self.new_tx_full(ins, &[], &[], members, &[], 1, fee, rng)
+    }
+
+    /// `gdeps`: dep-group cells used with DepType::DepGroup; `group_members`: when not empty, output 0 becomes a dep-group cell.
+    #[allow(clippy::too_many_arguments)]
+    pub fn new_tx_full(&mut self, ins: &[usize], deps: &[usize], gdeps: &[usize], group_members: &[usize], hdeps: &[usize], n_out: usize, fee: u64, rng: &mut Rng) -> Option<usize> {
         let total: u64 = ins.iter().map(|&i| self.outs[i].cap).sum();
         let min_cell = 200 * 100_000_000u64;
         if total < fee + min_cell * n_out as u64 {
@@ -207,6 +224,9 @@ impl World {
         let mut b = TransactionBuilder::default().cell_dep(always_success_dep(&self.c));
         for &d in deps {
             b = b.cell_dep(CellDep::new_builder().out_point(self.outs[d].op.clone()).dep_type(DepType::Code).build());
+        }
+        for &g in gdeps {
+            b = b.cell_dep(CellDep::new_builder().out_point(self.outs[g].op.clone()).dep_type(DepType::DepGroup).build());
         }
         for &h in hdeps {
             b = b.header_dep(self.blocks[h].view.hash());
@@ -220,7 +240,13 @@ impl World {
         for k in 0..n_out {
             let cap = if k == 0 { total - fee - per * (n_out as u64 - 1) } else { per };
             let v = rng.below(3) as u8;
-            b = b.output(CellOutput::new_builder().capacity(Capacity::shannons(cap)).lock(lock_variant(v)).build()).output_data(Bytes::new());
+            let data = if k == 0 && !group_members.is_empty() {
+                let v: Vec<OutPoint> = group_members.iter().map(|&m| self.outs[m].op.clone()).collect();
+                ckb_types::packed::OutPointVec::new_builder().set(v).build().as_bytes()
+            } else {
+                Bytes::new()
+            };
+            b = b.output(CellOutput::new_builder().capacity(Capacity::shannons(cap)).lock(lock_variant(v)).build()).output_data(data.pack());
             caps.push(cap);
             variants.push(v);
         }
@@ -232,12 +258,20 @@ impl World {
         let mut out_ids = vec![];
         for k in 0..n_out {
             out_ids.push(self.outs.len());
-            self.outs.push(OutRec { op: OutPoint::new(view.hash(), k as u32), cap: caps[k], name: (name.clone(), k as u32), creator: Some(idx), lock_variant: variants[k] });
+            self.outs.push(OutRec { op: OutPoint::new(view.hash(), k as u32), cap: caps[k], name: (name.clone(), k as u32), creator: Some(idx), lock_variant: variants[k], members: if k == 0 { group_members.to_vec() } else { vec![] } });
         }
         self.tx_by_hash.insert(view.hash(), idx);
         self.tx_by_short.insert(view.proposal_short_id(), idx);
         let size = view.data().serialized_size_in_block() as u64;
-        self.txs.push(TxRec { name, view, ins: ins.to_vec(), deps: deps.to_vec(), hdeps: hdeps.to_vec(), outs: out_ids, fee, size, cycles: 0 });
+        let mut all_deps = deps.to_vec();
+        for &g in gdeps {
+            for d in std::iter::once(g).chain(self.outs[g].members.clone()) {
+                if !all_deps.contains(&d) {
+                    all_deps.push(d);
+                }
+            }
+        }
+        self.txs.push(TxRec { name, view, ins: ins.to_vec(), deps: all_deps, gdeps: gdeps.to_vec(), hdeps: hdeps.to_vec(), outs: out_ids, fee, size, cycles: 0 });
         Some(idx)
     }
 
